@@ -12,6 +12,7 @@ PID = "C05"
 F_TRUNC = "C05-replay-skipped-after-truncation"
 F_PID = "C05-proposeid-reuse"
 F_ACKERR = "C05-ack-despite-apply-error"
+F_FORCED = "C05-forced-truncation-strands-member"
 
 
 # ------------------------------------------------------------------ rendering harness cases as Coq terms
@@ -90,6 +91,11 @@ def case_coq(c):
         return "CAck [%s] [%s] %s" % ("; ".join(evs), "; ".join(batch(b) for b in (c.get("acked") or [])), batch(c.get("final")))
     if k == "ackerr":
         return "CAckErr %s" % ("true" if c["erracked"] else "false")
+    if k == "coord":
+        m = {"ok": "WOk", "retry-pt": "WRetry", "retry-conn": "WRetry", "fail": "WFail", "shardmeta": "WFail"}
+        return "CCoord [%s] %s %d" % ("; ".join(m[x] for x in c["script"]), "true" if c["acked"] else "false", c["calls"])
+    if k == "group":
+        return "CGroup %s %s" % ("true" if c["forced"] in ("time", "size") else "false", "true" if c["missing"] > 0 else "false")
     if k == "conflict":
         bl = lambda bs: "[" + "; ".join(batch(b) for b in (bs or [])) + "]"
         return "CConflict %s %d %s %s" % (bl(c["old"]), c["j"], bl(c["new"]), bl(c.get("applied")))
@@ -103,12 +109,33 @@ def trunc_signature(c):
             and not (c.get("replayed") or []) and any(x > c["snap"] for x in (c.get("clears") or [])))
 
 
+def forced_signature(c):
+    """finding C05-forced-truncation-strands-member: the tolerate-time or the size branch truncated the leader's entry
+    log past the last index of a member that was down, and the member rejoined (raft snapshot without shard data)"""
+    return c["kind"] == "group" and c["forced"] in ("time", "size") and c["firstLeader"] > c["victimLast"] + 1
+
+
+def open_finding(ck, fid):
+    """ck.match_finding, extended by this property's own fragment for entries not yet merged into known_findings.json"""
+    f = ck.match_finding(fid)
+    if f:
+        return f
+    if any(x["id"] == fid for x in ck.findings):
+        return None
+    frag = os.path.join(os.path.dirname(os.path.abspath(__file__)), "findings.json")
+    for x in json.load(open(frag))["findings"]:
+        if x["id"] == fid and x.get("status") == "open":
+            return x
+    return None
+
+
 def main(ck):
     ck.assumptions += [
         "etcd/raft is trusted: leader completeness, log matching, quorum commit and state-machine safety are Section "
         "hypotheses of every trace theorem (premises, not axioms); Example raft_hypotheses_satisfiable instantiates them",
-        "timing (WaitCommitTimeout, election timeouts, clear-entryLog-tolerate-time = 6h after which the leader truncates "
-        "without a dead member, clear-entryLog-tolerate-size = 20GB) and real network behaviour are outside the model",
+        "timing (WaitCommitTimeout, election timeouts) and real network behaviour are outside the model; the forced "
+        "truncation branches (clear-entryLog-tolerate-time, clear-entryLog-tolerate-size) are modelled (TruncForce, TruncLocal, "
+        "RSnapshot): leader_keeps_what_members_lack holds under wf_cfg's trunc_all, today's branches are refuted",
         "the local apply of a committed entry succeeds in the trace model (storage faults are not in the property's "
         "fault space); the ack rule under apply failure is modelled and tied separately (commit_result_*)",
         "shard WAL enabled (product default): with wal-enabled=false the snapshot index is persisted before the data files "
@@ -129,18 +156,59 @@ def main(ck):
     if not binp:
         return
     n = 400 if ck.tier == "quick" else 6000
+    import subprocess
+    import threading
+    env = dict(vlib.goenv(), VERIF_SEED=str(ck.seed), VERIF_TIER=ck.tier, VERIF_WORK=ck.work)
     if ck.replay:
+        # re-run EXACTLY the recorded case on the implementation and on the model
         rp = json.load(open(ck.replay))
-        cases = [rp["case"]] if "case" in rp else []
-        ck.log("replay file: re-evaluating the recorded case on the model; re-run of the implementation uses the full "
-               "deterministic stream (seed %s)" % rp.get("seed"))
-        if "seed" in rp:
-            ck.seed = int(rp["seed"])
-    rc, out = ck.run([binp, "cases", str(n)], timeout=3000)
-    cases = [json.loads(l) for l in out.splitlines() if l.startswith('{"kind"')]
-    if rc != 0 or len(cases) < n:
-        ck.broken.append("harness c05 failed rc=%d cases=%d: %s" % (rc, len(cases), out[-600:]))
-        return
+        if rp.get("kind") in ("direct-oracle-cluster",) or (rp.get("detail") or {}).get("kind") == "cluster-history-not-accepted":
+            ck.log("replay of a cluster history: the cluster run cannot be repeated exactly; re-evaluating the recorded history on the model")
+            import importlib.util
+            spec = importlib.util.spec_from_file_location("c05_cluster", os.path.join(os.path.dirname(os.path.abspath(__file__)), "cluster.py"))
+            m = importlib.util.module_from_spec(spec)
+            spec.loader.exec_module(m)
+            h = (rp.get("detail") or {}).get("history") or rp.get("converted_history")
+            if h is None:
+                ck.broken.append("replay file carries no converted history")
+                return
+            info = m.accept_converted(ck, h)
+            ck.log("model acceptance of the recorded history: %s" % info)
+            return
+        one = os.path.join(ck.work, "one.json")
+        json.dump(rp.get("case") or (rp.get("detail") or {}).get("case") or rp, open(one, "w"))
+        rc, out = ck.run([binp, "one", one], timeout=600)
+        cases = [json.loads(l) for l in out.splitlines() if l.startswith('{"kind"')]
+        if rc != 0 or len(cases) != 1:
+            ck.broken.append("harness c05 one failed rc=%d: %s" % (rc, out[-400:]))
+            return
+        ck.log("replayed case: %s" % json.dumps(cases[0])[:600])
+        gprocs, cth = [], None
+    else:
+        # the real 3-node group scenarios run as separate processes next to the case stream, the cluster in a thread
+        gprocs = [subprocess.Popen([binp, "group", "30100", f], stdout=subprocess.PIPE, stderr=subprocess.DEVNULL, text=True,
+                                   cwd=ck.work, env=env) for f in ("time", "size", "none")]
+        cth = threading.Thread(target=cluster, args=(ck,))
+        cth.start()
+        rc, out = ck.run([binp, "cases", str(n)], timeout=3000)
+        cases = [json.loads(l) for l in out.splitlines() if l.startswith('{"kind"')]
+        if rc != 0 or len(cases) < n:
+            ck.broken.append("harness c05 failed rc=%d cases=%d: %s" % (rc, len(cases), out[-600:]))
+            cth.join()
+            return
+        for gp in gprocs:
+            try:
+                gout, _ = gp.communicate(timeout=600)
+            except subprocess.TimeoutExpired:
+                gp.kill()
+                gout = ""
+            gc = [json.loads(l) for l in gout.splitlines() if l.startswith('{"kind"')]
+            if len(gc) != 1:
+                ck.broken.append("harness c05 group scenario produced no result")
+            elif gc[0].get("scenario") != "ran":
+                ck.notes.append("group scenario not run: %s" % gc[0].get("note"))
+            else:
+                cases += gc
     ck.log("harness done: %d cases" % len(cases))
     # sanity of the replay observations (contiguous range ending at commit)
     for i, c in enumerate(cases):
@@ -173,7 +241,7 @@ def main(ck):
     ck.log("model evaluation done")
     # ---- verdicts
     kinds = {}
-    variants = {"replay": set(), "ack": set(), "ackerr": set()}
+    variants = {"replay": set(), "ack": set(), "ackerr": set(), "group": set()}
     mism = []
     for i, (c, code) in enumerate(zip(cases, codes)):
         kinds[c["kind"]] = kinds.get(c["kind"], 0) + 1
@@ -205,11 +273,14 @@ def main(ck):
                 fid = F_PID
             elif c["kind"] == "ackerr" and sig == F_ACKERR:
                 fid = F_ACKERR
+            elif c["kind"] == "group" and forced_signature(c):
+                fid = F_FORCED
             oracle_fail.append((i, what, fid))
     reported = 0
     for i, what, fid in oracle_fail:
-        if fid and ck.match_finding(fid):
-            ck.known_finding(fid, what if fid != F_TRUNC else "restart replays nothing after a ClearEntryLog beyond the member's own "
+        if fid and open_finding(ck, fid):
+            ck.known_finding(fid, what if fid not in (F_TRUNC, F_FORCED) else "a member that was down while the tolerate-time/size branch "
+                             "truncated the leader's log rejoins through a raft snapshot without shard data and lacks acknowledged points" if fid == F_FORCED else "restart replays nothing after a ClearEntryLog beyond the member's own "
                              "snapshot index; committed entries not yet applied are lost on that replica")
         elif reported < 3:
             reported += 1
@@ -236,7 +307,7 @@ def main(ck):
             return len(c.get("groups") or []) > 1
         if k == "replay":
             return bool(c.get("clears")) or c["commit"] > c["appliedAt"]
-        if k == "conflict":
+        if k in ("conflict", "coord", "group"):
             return True
         if k == "ack":
             return any(o["op"] == "c" for o in (c.get("ops") or [])) and any(o["op"] == "w" for o in (c.get("ops") or []))
@@ -263,8 +334,12 @@ def main(ck):
     ck.cov["model_variant_codes"] = {str(k): codes.count(k) for k in (0, 1, 2, 3, None)}
     ck.cov["samples"] = [{k: v for k, v in c.items() if k not in ("replayed",)} for c in
                          [next(c for c in cases if c["kind"] == kk) for kk in ("rot", "dw", "replay", "ack") if any(c["kind"] == kk for c in cases)]]
-    ck.cov["black_box_cluster"] = "see cluster section below"
-    cluster(ck)
+    if cth is not None:
+        cth.join()
+        if getattr(ck, "c05_history_accepted", False):
+            ck.cov["traces_validated_against_impl"] += 1
+    else:
+        ck.cov["black_box_cluster"] = "not run (--replay of a single case)"
 
 
 def cluster(ck):
